@@ -3,7 +3,7 @@
    Model: Model/Coord.v (one internal label = one atomic task step, unconstrained scheduler).
 *)
 From Coq Require Import ZArith NArith List Bool Arith.
-From NSG Require Import Base.Prelude Model.Defender Model.Coord Proofs.CoordBase Proofs.CoordInv Proofs.CoordInvConn Proofs.CoordInvDispatch Proofs.CoordInvHandler Proofs.CoordProps Proofs.CoordDirect Proofs.CoordInv2 Proofs.CoordAgentStep.
+From NSG Require Import Base.Prelude Model.Defender Model.Coord Proofs.CoordBase Proofs.CoordInv Proofs.CoordInvConn Proofs.CoordInvDispatch Proofs.CoordInvHandler Proofs.CoordProps Proofs.CoordDirect Proofs.CoordInv2 Proofs.CoordAgentStep Proofs.CoordBarrier.
 Import ListNotations.
 
 (* token conservation, in EVERY reachable state and for every connection: a request that was read and not yet answered is in exactly one place - the action queue, a handler task, or the response queue; a connection that is not waiting has none *)
@@ -66,6 +66,22 @@ Theorem C01_quiescent :
          @naq G c (@aq V W G s) = 0 /\ @c_queue V G cn = [] /\ @nh V G c (@handlers V W G s) = 1.
 Proof. exact (@quiescent_reachable). Qed.
 
+(* and that barrier is genuinely unmet (no lost wake-up): in every reachable idle state a handler held at the end barrier coexists with an agent that has not finished, one held at the reset barrier with an agent that has not asked, one held at the start barrier with a clear start event - what is unanswered waits for other players, never for the server *)
+Theorem C01_idle_unmet :
+  forall (V W G : Type) (wstep : W -> V -> G -> W * V) (wreset : W -> W) (winit : W -> role -> W * V)
+         (goal : role -> V -> bool) (detect : list G -> G -> bool) (cfg : config) 
+         (w : W) (ls : list (@label G)) (s : @state V W G) (h : @handler V G),
+       @execs V W G wstep wreset winit goal detect cfg (@init_state V W G w) ls = @Some (@state V W G) s ->
+       @quiescent V W G wstep winit goal detect cfg s = true ->
+       @In (@handler V G) h (@handlers V W G s) ->
+       match @h_pc V G h with
+       | PRewards false _ _ => @some_not_ended V W G s
+       | PResetDone false _ => @some_not_asked V W G s
+       | PJoinStart false _ | PResetStart false _ => @ev_start V W G s = false
+       | _ => True
+       end.
+Proof. exact (@idle_barriers_unmet). Qed.
+
 (* a handler parked at a barrier always belongs to a registered agent (its continuation cannot fail) *)
 Theorem C01_parked_have_agents :
   forall (V W G : Type) (wstep : W -> V -> G -> W * V) (wreset : W -> W) (winit : W -> role -> W * V)
@@ -114,6 +130,7 @@ Print Assumptions C01_tokens.
 Print Assumptions C01_alternation.
 Print Assumptions C01_queue_bound.
 Print Assumptions C01_quiescent.
+Print Assumptions C01_idle_unmet.
 Print Assumptions C01_parked_have_agents.
 Print Assumptions C01_garbage_answered.
 Print Assumptions C01_dispatcher_alive.
